@@ -52,19 +52,21 @@ type c01Range struct {
 }
 
 type c01Hist struct {
-	c      *Ctx
-	id     int
-	pool   []modeling.Mesh
-	entry  []string // canonical snapshot when the mesh entered the pool
-	digest []string
-	arrays []c01Range
-	maps   map[uintptr]int
-	mats   map[*modeling.Material]int
-	pal    []*modeling.Material
-	next   float64
-	step   int
-	keep   []any // caller-owned slices/maps handed to the library (kept alive, never mutated)
-	redo   []c01Redo
+	c        *Ctx
+	id       int
+	pool     []modeling.Mesh
+	entry    []string // canonical snapshot when the mesh entered the pool
+	digest   []string
+	arrays   []c01Range
+	maps     map[uintptr]int
+	mats     map[*modeling.Material]int
+	pal      []*modeling.Material
+	next     float64
+	step     int
+	keep     []any // caller-owned slices/maps handed to the library (kept alive, never mutated)
+	redo     []c01Redo
+	lastOp   string
+	reported map[int]bool
 }
 
 // ---------------------------------------------------------------------------------------------
@@ -341,7 +343,13 @@ func (h *c01Hist) enter(m modeling.Mesh) int {
 func (h *c01Hist) checkAll() {
 	for i, m := range h.pool {
 		now := Guard(func() string { return c01Digest(h.canon(m)) })
-		h.c.Emit("c01.holds.immutable", fmt.Sprintf("%d %d %d %s %s", h.id, h.step, i, h.digest[i], now), "true")
+		h.c.Emit("c01.holds.immutable", fmt.Sprintf("%d %d %d %s %s %s", h.id, h.step, i, h.lastOp, h.digest[i], now), "true")
+		if now != h.digest[i] && !h.reported[i] {
+			// a mesh changed: give the replay both complete snapshots, once per mesh
+			h.reported[i] = true
+			full := Guard(func() string { return h.canon(m) })
+			h.c.Emit("c01.holds.immutable_full", fmt.Sprintf("%d %d %s | %s", h.id, i, h.entry[i], full), "true")
+		}
 	}
 }
 
@@ -1071,6 +1079,7 @@ func (h *c01Hist) apply(name string) (res []c01Result, ok bool) {
 
 func (h *c01Hist) doOp(name string) {
 	h.step++
+	h.lastOp = name
 	res, ok := h.apply(name)
 	if ok {
 		h.c.Note("op." + name)
@@ -1109,6 +1118,7 @@ func (h *c01Hist) scriptedBranch() {
 	topo := h.topo()
 	n := 1 + rng.Intn(6)
 	base := h.enter(h.randomMesh(topo, n))
+	h.lastOp = "append"
 	for k := rng.Intn(3); k > 0; k-- { // chain
 		o := h.enter(h.randomMesh(topo, 1+rng.Intn(4)))
 		h.step++
@@ -1145,7 +1155,7 @@ func runC01(c *Ctx) {
 		maxOps = 40
 	}
 	for id := 0; id < c.N; id++ {
-		h := &c01Hist{c: c, id: id, maps: map[uintptr]int{}, mats: map[*modeling.Material]int{}}
+		h := &c01Hist{c: c, id: id, maps: map[uintptr]int{}, mats: map[*modeling.Material]int{}, lastOp: "init", reported: map[int]bool{}}
 		for i := 0; i < 3; i++ {
 			h.pal = append(h.pal, &modeling.Material{Name: fmt.Sprintf("mat%d", i)})
 		}
@@ -1168,7 +1178,7 @@ func runC01(c *Ctx) {
 			h.checkFull()
 		}
 		// the package-level index table handed to every welded cube is still what it was
-		c.Emit("c01.holds.immutable", fmt.Sprintf("%d %d %d %s %s", id, h.step+1, -1, unit,
+		c.Emit("c01.holds.immutable", fmt.Sprintf("%d %d %d unitcube %s %s", id, h.step+1, -1, unit,
 			c01Digest((&c01Hist{c: c, mats: map[*modeling.Material]int{}}).canon(primitives.UnitCube()))), "true")
 		c.Note(fmt.Sprintf("pool.size.%02d", (len(h.pool)/4)*4))
 	}
